@@ -369,6 +369,7 @@ pub fn run_case_plan(run: &mut Run, rng: &mut Rng, cfg: &Cfg, iters: usize, faul
     // route changes: the path length may change between rounds (C10: growing / shrinking paths)
     let route_changes = rng.chance(1, 3);
     let mut exact_answered_in_round = false;
+    let mut route_flapped_in_round = false;
     let mut mon = Monitor { round_start: t0, last_outcome: 'o', first_iter: true, established: false, established_round: 0, ..Default::default() };
     let mut prev_round_probes: Vec<Probe> = vec![];
     let mut answered: Vec<Resp> = vec![];
@@ -410,6 +411,7 @@ pub fn run_case_plan(run: &mut Run, rng: &mut Rng, cfg: &Cfg, iters: usize, faul
         let aw = awaited(&st);
         let choice = if force_stale { 99 } else if force_genuine { 50 } else { rng.below(100) };
         let mut genuine_for: Option<Probe> = None;
+        let mut genuine_is_target = false;
         let recv = if force_none || (force_genuine && aw.is_empty()) {
             Recv::None
         } else if force_fatal || (fault && rng.chance(1, 60)) {
@@ -418,8 +420,13 @@ pub fn run_case_plan(run: &mut Run, rng: &mut Rng, cfg: &Cfg, iters: usize, faul
             Recv::None
         } else if choice < 72 && !aw.is_empty() {
             let p = rng.pick(&aw).clone();
-            let is_t = p.ttl.0 >= path_len;
+            // now and then a router answers at or beyond the target's distance (a route flap in mid-round,
+            // ECMP): a genuine response that is not from the target
+            let flap = p.ttl.0 >= path_len && rng.chance(1, 7);
+            let is_t = p.ttl.0 >= path_len && !flap;
+            if flap { run.count("genuine:router-beyond-target"); }
             let r = genuine(cfg, &p, if is_t { cfg.target } else { 1000 + u64::from(p.ttl.0) }, is_t, now_after, rng);
+            genuine_is_target = is_t;
             genuine_for = Some(p);
             answered.push(r.clone());
             Recv::Resp(r)
@@ -523,6 +530,11 @@ pub fn run_case_plan(run: &mut Run, rng: &mut Rng, cfg: &Cfg, iters: usize, faul
                     if let Some(&last) = mon.round_seqs.last() { if seq != last.wrapping_add(1) { run.fail("c07-not-consecutive", ctx()); } }
                     else if seq != before_seq_start { run.fail("c07-round-start", ctx()); }
                     if seq == 65535 { run.fail("c07-reached-65535", ctx()); }
+                    // Dublin/IPv6: the payload length is sequence - initial sequence and must fit the 976-octet
+                    // payload buffer together with the 6-octet marker
+                    if cfg.proto == 'u' && cfg.strat == 'd' && cfg.v6 && (seq < cfg.initial || usize::from(seq - cfg.initial) + 6 > 976) {
+                        run.fail("c07-dublin-payload-exceeds-buffer", format!("{} (sequence {seq}, initial {})", ctx(), cfg.initial));
+                    }
                     mon.round_seqs.push(seq);
                     if mon.round_seqs.len() > 512 { run.fail("c07-more-than-512", ctx()); }
                     if mon.prev_round_seqs.contains(&seq) { run.fail("c07-reused-from-previous-round", ctx()); }
@@ -555,9 +567,15 @@ pub fn run_case_plan(run: &mut Run, rng: &mut Rng, cfg: &Cfg, iters: usize, faul
                     round_answered.push(p.sequence.0);
                     if let Some(r) = answered.last() { round_answered_resp.push((p.sequence.0, r.clone())); }
                     mon.last_accept_time = Some(now_after);
-                    if p.ttl.0 >= path_len { mon.target_accepted_in_round = true; }
-                    if p.ttl.0 == path_len && !mon.established { mon.established = true; mon.established_round = before_round; }
-                    if p.ttl.0 == path_len { exact_answered_in_round = true; }
+                    if genuine_is_target { mon.target_accepted_in_round = true; }
+                    if p.ttl.0 >= path_len && !genuine_is_target {
+                        // the path is not stable: what was established about the target's distance is void
+                        mon.established = false;
+                        exact_answered_in_round = false;
+                        route_flapped_in_round = true;
+                    }
+                    if p.ttl.0 == path_len && genuine_is_target && !mon.established && !route_flapped_in_round { mon.established = true; mon.established_round = before_round; }
+                    if p.ttl.0 == path_len && genuine_is_target && !route_flapped_in_round { exact_answered_in_round = true; }
                 }
                 // C08: publication exactly when the policy says (independent recomputation)
                 let dur = now_after.saturating_sub(mon.round_start);
@@ -616,6 +634,7 @@ pub fn run_case_plan(run: &mut Run, rng: &mut Rng, cfg: &Cfg, iters: usize, faul
                         run.count("c10:path-length-checked");
                     }
                     exact_answered_in_round = false;
+                    route_flapped_in_round = false;
                     if route_changes && rng.chance(1, 3) {
                         path_len = rng.range(1, u64::from(cfg.max) + 3) as u8;
                         mon.established = false;
@@ -711,6 +730,16 @@ pub fn run(rng: &mut Rng, thorough: bool, corpus: &[String]) -> Run {
         }
         run.count("directed:tcp-capacity");
         run_case_plan(&mut run, rng, &cfg, 200, false, false, plan);
+    }
+    // directed: Dublin/IPv6 soak — one probe per round for 1100 rounds: the sequence has to restart at the
+    // initial sequence every 512 numbers, or the payload length derived from it outgrows the packet buffer
+    for initial in [33434u16, 0, 64511] {
+        let mut cfg = gen_cfg(rng, thorough);
+        while !cfg.builder_ok() { cfg = gen_cfg(rng, thorough); }
+        cfg.proto = 'u'; cfg.strat = 'd'; cfg.v6 = true; cfg.pd = Pd::Src(5000); cfg.initial = initial;
+        cfg.first = 1; cfg.max = 30; cfg.inflight = 24; cfg.max_rounds = None; cfg.min_round = 0; cfg.max_round = 1000; cfg.grace = 0;
+        run.count("directed:dublin-v6-soak");
+        run_case(&mut run, rng, &cfg, 1100, false, true);
     }
     // directed (known finding F7): TCP, initial sequence 64511, a round that uses all 512 sequence numbers:
     // the next round restarts at 64511 and reuses them
